@@ -27,6 +27,7 @@ struct BlockInfo {
 
 struct OpWindow {
   FaultSpec fault;
+  uint64_t refused_injected = 0; uint64_t first_refused = ~0ull;   // injected refusals; request index of the first refusal
   uint64_t requests = 0, refused = 0, mallocs = 0, reallocs = 0, frees = 0, null_frees = 0, realloc_req = 0;
   uint64_t prob_state = 0;
   std::vector<uint64_t> allocated, freed;  // block ids born / released in this window (a realloc that moves = free + alloc of a new id)
@@ -54,6 +55,7 @@ const BlockInfo* sa_find(const void* p);           // live block with exactly th
 const BlockInfo* sa_find_containing(const void* p);// live block containing p (arena/debug; linear)
 const BlockInfo* sa_by_id(uint64_t id);
 std::vector<uint64_t> sa_live_ids();               // sorted
+uint64_t sa_live_sig();                            // O(1) signature of the live set (count + xor of hashed ids)
 // image of all live blocks: (id, bytes) sorted by id
 struct BlockImage { uint64_t id; std::vector<unsigned char> bytes; };
 std::vector<BlockImage> sa_snapshot();
